@@ -84,7 +84,10 @@ func (h) Rule() string {
 	return "texts from script-aware generators (Latin with accents/apostrophes/camelCase/URLs, Arabic, Persian and Sorani with ZWNJ " +
 		"and the stemmers' affixes, Cyrillic, Devanagari, CJK incl. half/full-width forms and Hangul), mixed scripts, raw bytes, " +
 		"truncated runes, lone continuation bytes, genuine U+FFFD, over-long and surrogate encodings, very long tokens, empty and " +
-		"blank texts; each text goes through all 24 bundled analyzers and the x-* wrappers of every other exported component; " +
+		"blank texts; a sweep over EVERY range of the unicode script tables the analysis packages consult (the nine Indic tables of lang/in, Arabic, " +
+		"Cyrillic, Han, Hiragana, Katakana, Hangul, Latin, Greek: both ends, the second and a seeded member of each range, all members in the " +
+		"thorough tier — i.e. also the extended and supplementary-plane blocks outside a script's main block), each code point alone and inside " +
+		"a word, through the analyzers and stemmers that consult the table; each text goes through all 24 bundled analyzers and the x-* wrappers of every other exported component; " +
 		"modelled filters additionally get explicit stage inputs (valid streams with gaps, keyword/ideographic flags, repeated terms; " +
 		"a malformed stream class) over their parameter grid; every analyzer value and filter chain is also used by 8 goroutines at once (conc/concp); " +
 		"the in-repo stemmers / normalisers / rune helpers run on words of their script (every affix under stems of 0..8 letters, accents, " +
@@ -451,7 +454,7 @@ func wrap(tk analysis.Tokenizer, fs ...analysis.TokenFilter) func() *analysis.An
 	return func() *analysis.Analyzer { return &analysis.Analyzer{Tokenizer: tk, TokenFilters: fs} }
 }
 
-func uni() analysis.Tokenizer { return tokenizer.NewUnicodeTokenizer() }
+func uni() analysis.Tokenizer   { return tokenizer.NewUnicodeTokenizer() }
 func low() analysis.TokenFilter { return token.NewLowerCaseFilter() }
 
 var analyzers []anDef
@@ -681,6 +684,14 @@ func execAn(opline, name string, text []byte, wantMQ bool, out func(string, stri
 	}
 	st.Count("op:an")
 	st.Count("an:" + name)
+	if indic, other := outsideMainBlock(text); (indic || other != "") && (res == "panic" || ntok > 0) {
+		if indic && (name == "hi" || name == "x-indic") {
+			st.Count("script-table-outside-main-block")
+		}
+		if other != "" {
+			st.Count("script-table-extended:" + other)
+		}
+	}
 	if res == "panic" {
 		st.Count("res:panic")
 	} else if ntok == 0 {
